@@ -124,6 +124,19 @@ inputs, sample of observations, `further_ties`: the outcome of every additional 
   drives the real code through the gap - file locks (C23: an allocation against a removal, the waiting side must report that it
   waits; C15: two terminals per process), asyncio sections (C20: bus writes that complete when the script says; C25), and
   machine-checked witnesses show what happens without the atomicity (`C23_split_release_refuted`, `C20_split_booking_refuted`).
+* **Alarms raised by new case families on the unchanged tree while strengthening (rounds 7-9), all corrected in the machinery**:
+  C03 - `abs()` / unary minus of an UNSIGNED register holding a value of 2**63 and more in a condition: the generator negates in
+  two's complement, the oracle took the mathematical absolute value; such operands are outside the quantifier (as in C01) and the
+  new atoms are restricted to signed registers.  C16 - a `memoryview` offered to `sdo_write` is refused by struct for the expedited
+  form: a refusal, not a violation; values are offered as bytes and bytearray only.  C20 - the first oracle of the group scripts
+  demanded that a group be accepted whenever enough FMMUs were free; the slot search of an output / input mapping does not cover
+  every slot (that rule is the terminal-level model's), the demand was dropped, and the scripts are now compared with the group
+  model `run_groups` instead.  C25 - in the first hot-plug scenario a newcomer could carry an address that the first scan had just
+  handed out: a conflict no master can avoid; newcomers now carry addresses of the range that nobody has at that moment.  C08 - a
+  preliminary program in the same simulated kernel shifted the map numbering the harness used for the program under test.  C06 -
+  a device's local variable preset by the harness shared bytes with the scratch word of the main program's map lookup (harmless
+  at program start, cf. C04): the program now sets the local itself.  C28 - not an alarm but the opposite: the harness's trace
+  kept references to the device's own chunk objects alive and thereby hid an address-reuse defect (seed C28-g); it stores copies.
 * Every other mismatch met on the unchanged tree turned out to be a genuine defect: section 6.
 '''
 
